@@ -1,6 +1,7 @@
 import RimuProofs.Lemmas.Hoare
 import RimuProofs.Lemmas.Groups
 import RimuProofs.Regex.GroupProp
+import RimuProofs.Regex.Literal
 import RimuProofs.Facts
 import RimuModel.Block
 
@@ -28,10 +29,10 @@ def modelOnly : PyErr → Bool
 
 /-- raise sites of the model that are not excluded here -/
 def residual : PyErr → Bool
-  | .indexError site => site == "savedReplacements.pop(0)" || site == "quote[0]" || site == "match[0][0] paragraph" || site == "ids.pop()"
-      || site == "no such group"
+  | .indexError site => site == "savedReplacements.pop(0)" || site == "match[0][0] paragraph" || site == "ids.pop()"
+      || site == "htmlSafeModeFilter(match[1])" || site == "entity match[1]"
   | .valueError _ => true
-  | .assertion site => site == "m is not None" || site == "qdef is not None"
+  | .assertion site => site == "m is not None"
   | .noneType site => site == "htmlSafeModeFilter(match[1])" || site == "entity match[1]"
   | _ => false
 
@@ -131,12 +132,10 @@ theorem pc_str {m : Match} {p : Pat} (h : m.Of p) {i : Nat} (hp : p.Sets i = tru
     ∃ a, (m.str i site).run s = .ok (a, s) ∧ m.res.group m.inp i = some a := by
   obtain ⟨g, hg⟩ := h.str hp site s
   refine ⟨g, hg, ?_⟩
-  unfold Match.str Match.opt at hg
+  unfold Match.str at hg
   split at hg
   · cases hg
-  · rw [run_bind, run_pure] at hg
-    simp only [] at hg
-    split at hg
+  · split at hg
     · next g' hg' => cases hg; exact hg'
     · cases hg
 
@@ -278,12 +277,13 @@ theorem replaceMatch_ok (mt : Match) (r : Str) (e : Expand) : Ok (replaceMatch r
 
 omit hs in
 /-- reading a group as a string where nothing is known about the pattern: the two residual outcomes -/
-theorem str_residual (m : Match) (i : Nat) (site : String) (hsite : residual (.noneType site) = true) :
+theorem str_residual (m : Match) (i : Nat) (site : String)
+    (hsite : residual (.noneType site) = true ∧ residual (.indexError site) = true) :
     ∀ s, wpE (m.str i site) (fun _ s' => s' = s) Allowed s := by
   intro s
-  unfold Match.str Match.opt
+  unfold Match.str
   hoare_go
-  all_goals first | rfl | (simp [Allowed, modelOnly, hsite]; done) | skip
+  all_goals first | rfl | (simp [Allowed, modelOnly, hsite.1, hsite.2]; done) | skip
 
 theorem replacementText_ok (rdef : ReplDef) (mt : Match) : Ok (replacementText rec env rdef mt) := by
   have hr := replaceMatch_ok rec env hs
@@ -341,7 +341,8 @@ theorem findQuote_ok (qre : Pat) (hq : qre.Sets 1 = true) (text : Str) :
     exact ⟨hI, fun mt h => by cases h; exact hof _ _ (by assumption) (by assumption)⟩
 
 omit hs in
-theorem fragQuoteLoop_ok (defs : List QuoteDef) : ∀ fuel text, Ok (fragQuoteLoop defs fuel text) := by
+theorem fragQuoteLoop_ok (defs : List QuoteDef) (hdefs : defs ≠ [] ∧ ∀ d ∈ defs, d.quote ≠ []) :
+    ∀ fuel text, Ok (fragQuoteLoop defs fuel text) := by
   have hfq := findQuote_ok (quotesRe defs) (Facts.quotesRe_set defs).1
   have h1 : ∀ mt : Match, mt.Of (quotesRe defs) → ∀ site s, ∃ a, (mt.str 1 site).run s = .ok (a, s) ∧ mt.res.group mt.inp 1 = some a :=
     fun mt h => pc_str h (Facts.quotesRe_set defs).1
@@ -351,11 +352,26 @@ theorem fragQuoteLoop_ok (defs : List QuoteDef) : ∀ fuel text, Ok (fragQuoteLo
   induction fuel with
   | zero => intro text s hI; unfold fragQuoteLoop; hoare
   | succ n ih =>
-    intro text s hI; unfold fragQuoteLoop; hoare
+    intro text s hI; unfold fragQuoteLoop
+    hoare_go
+    all_goals (try (first | inv_leaf | assumption))
+    -- `qdef is not None`, `quote[0]`: the captured delimiter is a (non-empty) quote of the table
+    all_goals (
+      exfalso
+      have hof : ∃ mt : Match, mt.Of (quotesRe defs) ∧ ∃ q, mt.res.group mt.inp 1 = some q ∧
+          (quotesGetDefinition defs q = none ∨ q = []) := by
+        refine ⟨_, by solve_by_elim, _, by assumption, ?_⟩
+        first | exact .inl (by assumption) | exact .inr rfl
+      obtain ⟨mt, hof, q, hg, hcase⟩ := hof
+      obtain ⟨d, hd, hmem, hq⟩ := quote_definition_found defs (by assumption) hof hg
+      rcases hcase with hnone | hnil
+      · rw [hd] at hnone; cases hnone
+      · subst hnil; exact absurd hq (by solve_by_elim))
 
 omit hs in
-theorem fragQuote_ok (defs : List QuoteDef) (f : Fragment) : Ok (fragQuote defs f) := by
-  have h := fragQuoteLoop_ok defs
+theorem fragQuote_ok (defs : List QuoteDef) (hdefs : defs ≠ [] ∧ ∀ d ∈ defs, d.quote ≠ []) (f : Fragment) :
+    Ok (fragQuote defs f) := by
+  have h := fragQuoteLoop_ok defs hdefs
   intro s hI
   unfold fragQuote
   hoare
@@ -370,6 +386,7 @@ theorem postReplacements_ok : ∀ text, Ok (postReplacements text) := by
 theorem spansRender_ok (source : Str) : Ok (spansRender rec env source) := by
   have h1 := preReplacements_ok rec env hs
   have h2 := fragQuote_ok
+  have hq : ∀ s : Session, Inv s → s.quoteDefs ≠ [] ∧ ∀ d ∈ s.quoteDefs, d.quote ≠ [] := fun s h => h.1
   have h3 := postReplacements_ok
   intro s hI
   unfold spansRender
